@@ -49,7 +49,7 @@ def bases():
         {"type": "range", "name": "rg", "label": "RG", "parameters": "start=1 end=5 step=1"},
     ]
     h2 = ["type", "name", "label", "appearance", "default", "choice_filter", "parameters"]
-    c2 = [{"list_name": "L", "name": "l1", "label": "L1"}, {"list_name": "L", "name": "l2", "label": "L2"}, {"list_name": "L", "name": "l3", "label": "L3"}, {"list_name": "M", "name": "m1", "label": "M1"}]
+    c2 = [{"list_name": "L", "name": "l1", "label": "L1"}, {"list_name": "L", "name": "l2", "label": "L2"}, {"list_name": "L", "name": "l3"}, {"list_name": "M", "name": "m1", "label": "M1"}]  # l3: no label -> a choices-sheet warning with a row number
     x2 = [{"list_name": "X", "name": "x1", "label": "X1", "state": "s1"}, {"list_name": "X", "name": "x2", "label": "X2", "state": "s2"}]
     base2 = {"sheets": [_sheet("survey", h2, b2s), _sheet("choices", ["list_name", "name", "label"], c2), _sheet("external_choices", ["list_name", "name", "label", "state"], x2),
                         _sheet("settings", ["form_title", "form_id"], [{"form_title": "Base Two", "form_id": "base_two"}])]}
